@@ -414,3 +414,53 @@ func dumpExpression(b *strings.Builder, e *tree.Expression) {
 		b.WriteString("(null)")
 	}
 }
+
+// DumpParseTree parses the input with a fresh lexer and parser and returns the parse tree as an S-expression:
+// (Rule:<context type> child...) for rule nodes, (T <token type name> (s code points...)) for terminals, (ERR) for error
+// nodes; plus the number of syntax errors reported. The tree is what the listener of package tree walks.
+func DumpParseTree(input string) (dump string, syntaxErrors int, err error) {
+	defer func() {
+		if r := recover(); r != nil {
+			err = fmt.Errorf("panic: %v", r)
+		}
+	}()
+	listener := &countingErrorListener{}
+	lexer := parser.NewYarnSpinnerLexer(antlr.NewInputStream(input))
+	lexer.RemoveErrorListeners()
+	lexer.AddErrorListener(listener)
+	p := parser.NewYarnSpinnerParser(antlr.NewCommonTokenStream(lexer, antlr.LexerDefaultTokenChannel))
+	p.RemoveErrorListeners()
+	p.AddErrorListener(listener)
+	root := p.Dialogue()
+	names := lexer.GetSymbolicNames()
+	var b strings.Builder
+	var walk func(t antlr.Tree)
+	walk = func(t antlr.Tree) {
+		switch n := t.(type) {
+		case antlr.ErrorNode:
+			b.WriteString("(ERR)")
+		case antlr.TerminalNode:
+			token := n.GetSymbol()
+			name := "EOF"
+			if tt := token.GetTokenType(); tt >= 0 && tt < len(names) {
+				name = names[tt]
+			}
+			b.WriteString("(T " + name + " ")
+			dumpString(&b, token.GetText())
+			b.WriteString(")")
+		case antlr.RuleContext:
+			typeName := fmt.Sprintf("%T", n)
+			typeName = strings.TrimSuffix(typeName[strings.LastIndex(typeName, ".")+1:], "Context")
+			b.WriteString("(R " + typeName)
+			for _, c := range n.GetChildren() {
+				b.WriteString(" ")
+				walk(c)
+			}
+			b.WriteString(")")
+		default:
+			b.WriteString("(?)")
+		}
+	}
+	walk(root)
+	return b.String(), listener.count, nil
+}
